@@ -116,13 +116,22 @@ func (n *CocagoParser) Visitor(f *ast.File, fset *token.FileSet, fileName string
 			currentStruct.NodeName = x.Name.Name
 			currentStruct.Package = currentFile.PackageName
 			//currentStruct.FilePath = BuildImportName(fileName)
-			dsMap[currentStruct.NodeName] = &currentStruct
+			if existing, ok := dsMap[currentStruct.NodeName]; ok {
+				// methods were declared before their receiver type
+				existing.Package = currentStruct.Package
+			} else {
+				dataStruct := currentStruct
+				dsMap[currentStruct.NodeName] = &dataStruct
+			}
 		case *ast.StructType:
 			AddStructType(currentStruct.NodeName, x, &currentFile, dsMap)
 		case *ast.FuncDecl:
 			funcType = "FuncDecl"
 			currentFunc, recv := AddFunctionDecl(x, &currentFile)
 			if recv != "" {
+				if dsMap[recv] == nil {
+					dsMap[recv] = &core_domain.CodeDataStruct{NodeName: recv, Package: currentFile.PackageName}
+				}
 				dsMap[recv].Functions = append(dsMap[recv].Functions, *currentFunc)
 			}
 		case *ast.FuncType:
